@@ -112,8 +112,9 @@ void h_thread_migrate(void)
         int elig = i < n && running && xs[i] != th.p_last_xstream && !shares;
         if (elig && !eligible_exists) { eligible_exists = 1; first_eligible = i; }
     }
-    glob.p_xstream_head = &x1; glob.num_xstreams = n;
+    glob.p_xstream_head = &x1; glob.num_xstreams = n; vf_lock_held = 0; unsigned acq0 = vf_acquires, rel0 = vf_releases;
     int r = ABT_thread_migrate((ABT_thread)&th);
+    VF_ASSERT(vf_lock_held == 0 && vf_acquires - acq0 == vf_releases - rel0, "the stream-list lock is released on EVERY return path (a failed snapshot allocation included): a failed call must not wedge stream creation / finalisation");
     if (!(th.type & ABTI_THREAD_TYPE_MIGRATABLE) || (th.type & ABTI_THREAD_TYPE_MAIN_SCHED)) { VF_ASSERT(r == ABT_ERR_INV_THREAD && vf_migreqs == 0, "rejected, no request"); }
     else if (r == ABT_ERR_MEM) { VF_ASSERT(vf_migreqs == 0, "allocation of the stream snapshot failed: nothing requested"); }
     else if (eligible_exists) {
